@@ -88,3 +88,49 @@ func StoreMadeMap(k string) map[string]int { // clean
 func CallFromTable(t map[string]func(), k string) { // want dynamic-call
 	t[k]()
 }
+
+type Hooks struct {
+	OnMiss func() string
+	Spec   interface{ String() string }
+}
+
+func (h *Hooks) CallUnguarded() string { // want no-panic-construct
+	return h.OnMiss()
+}
+
+func (h *Hooks) CallGuarded() string { // clean
+	if h.OnMiss != nil {
+		return h.OnMiss()
+	}
+	return ""
+}
+
+func (h *Hooks) InvokeUnguarded() string { // want no-panic-construct
+	return h.Spec.String()
+}
+
+func (h *Hooks) InvokeGuarded() string { // clean
+	if h.Spec == nil {
+		return ""
+	}
+	return h.Spec.String()
+}
+
+type parseErr struct {
+	In  string
+	Err error
+}
+
+func (e parseErr) Error() string { // want no-panic-construct
+	return e.In + ": " + e.Err.Error()
+}
+
+func newParseErr(in string) error { return parseErr{In: in} }
+
+type wrapped struct{ w interface{ String() string } }
+
+func (x wrapped) Text() string { // clean
+	return x.w.String()
+}
+
+func newWrapped(s interface{ String() string }) wrapped { return wrapped{w: s} }
